@@ -1,3 +1,5 @@
 //! Shared helpers for the correspondence harness binaries.
 pub mod rng;
 pub mod wire;
+pub mod progs;
+pub mod session;
